@@ -432,7 +432,7 @@ SH = 12
 
 def correspondence(ctx):
     rng = ctx.rng
-    n = ctx.n(45, 700)
+    n = ctx.n(45, 300)
     dis, cases, meta = [], [], []
     for i in range(n):
         d = gen_loop(rng, adversarial=(i % 3 == 2))
@@ -530,7 +530,7 @@ def run_l2(ctx, loops):
 
 def search(ctx, deep=False):
     rng = ctx.rng
-    n = ctx.n(40, 600) * (3 if deep else 1)
+    n = ctx.n(40, 250) * (3 if deep else 1)
     loops = []
     for i in range(n):
         d = gen_loop(rng, adversarial=(i % 4 == 3))
